@@ -123,6 +123,13 @@ def _allowed_keys(n, a, b):
             return False
         except ValueError:
             pass
+    # degenerate allowed-key collections: given but EMPTY means no key is allowed (only None means "no restriction")
+    for empty in ([], (), {}):
+        try:
+            _rxn(str(n) + " " + a + " -> B", empty)
+            return False
+        except ValueError:
+            pass
     return good
 
 
